@@ -220,7 +220,25 @@ type Residue struct {
 	Holding func(p *mc.Proc) bool
 }
 
-func (m *Residue) AfterOp(w *mc.World, ev *mc.Event) {}
+func (m *Residue) AfterOp(w *mc.World, ev *mc.Event) {
+	// Close and Clean remove only stale files, never a listed table
+	if !ev.Mutated || ev.Op.Kind != "remove" {
+		return
+	}
+	p := w.Procs[ev.Pid]
+	if !p.InCall || p.CallIdx >= len(p.Prog) {
+		return
+	}
+	k := callKind(p.Prog[p.CallIdx].Label)
+	if k != "close" && k != "clean" {
+		return
+	}
+	for _, n := range ListNames(w) {
+		if n == ev.Op.Name {
+			w.Violate(m.Prop, "residue:gc-unlinks-listed-table@"+k, fmt.Sprintf("p%d: %s removed %s, which tables.list still names", ev.Pid, k, n))
+		}
+	}
+}
 func (m *Residue) AfterCall(w *mc.World, p *mc.Proc, call int, res string) {
 	if call < len(p.Prog) && strings.HasPrefix(res, "PANIC") {
 		if k := callKind(p.Prog[call].Label); k == "clean" || k == "close" {
@@ -634,6 +652,10 @@ func (m *Snapshot) note(w *mc.World) {
 		return
 	}
 	m.lastList = lh
+	if lh == "absent" && len(m.order) > 0 {
+		// tables.list was removed after it existed: that is not a committed version
+		return
+	}
 	names := strings.Join(ListNames(w), ",")
 	if _, ok := m.versions[names]; ok {
 		return
